@@ -175,9 +175,10 @@ def draw_coincidence(rng):
     return (steps, r, a, c, tw, True)
 
 
-def v_lm(ctx, ec, em, mp, n):
-    rng = S.rng_for(ctx, 303)
-    events = []
+def v_inputs(seed, n):
+    """the V stage's input sequence, a function of the seed alone (the replay command regenerates a prefix of it)"""
+    import random
+    rng = random.Random(seed * 1000003 + 303)
     for _ in range(n):
         d = draw_lm(rng)
         if len(d) == 4:
@@ -185,16 +186,21 @@ def v_lm(ctx, ec, em, mp, n):
             tw = None
         else:
             steps, r, a, c, tw, _ = d
-        dps = rng.choice(DPS)
+        yield steps, r, a, c, tw, rng.choice(DPS)
+
+
+def v_lm(ctx, ec, em, mp, n):
+    events = []
+    for k, (steps, r, a, c, tw, dps) in enumerate(v_inputs(ctx.seed, n)):
         out = call_lm(ec, mp, dps, steps, r, a, c)
         fb = lt_feedback(ec, mp, dps, steps, r, a, c, out)
-        events.append(S.ev_lm(steps, r, a, c, out, fb, tw, dps))
+        events.append(dict(S.ev_lm(steps, r, a, c, out, fb, tw, dps), vk=k))
         if c == S.CLEAR:
             # the deprecated wrapper reports the same duration (it always clears); judged as the full answer with calculate_lm's position/accumulator
             mp.mp.dps = dps
             gt = S.call(em.moveTimeLM, r, steps, a)
             if S.ints(out, 3):
-                events.append(S.ev_lm(steps, r, a, c, (gt, out[1], out[2]) if S.ints(gt) else gt, None, tw, dps, via="moveTimeLM"))
+                events.append(dict(S.ev_lm(steps, r, a, c, (gt, out[1], out[2]) if S.ints(gt) else gt, None, tw, dps, via="moveTimeLM"), vk=k))
     vs = S.judge(ctx, "v", events, chunk=1500)
     rej = 0
     for e, v in zip(events, vs):
@@ -207,6 +213,7 @@ def v_lm(ctx, ec, em, mp, n):
             if e["via"] == "moveTimeLM":
                 v = "lm.alias_moveTimeLM"
             ctx.violation(v, {"mode": "V", "fn": e["via"], "steps": e["steps"], "rate": e["r"], "accel": e["a"], "accum": e["c"], "dps": e["dps"],
+                              "vseq": [ctx.seed, e["vk"]],
                               "first_tick_witness": vlib.from_limbs(e["Tw"]) if e["hasw"] else None},
                           "first tick reaching the budget, recurrence state there", e["raw"],
                           input_class=input_class(e["steps"], e["r"], e["a"], e["c"]))
@@ -250,6 +257,15 @@ def replay(rec):
     if c.get("prelude"):
         ps, pr, pa, pc = c["prelude"]                  # observed after this call had been made
         call_lm(ec, mp, 15, ps, pr, pa, pc)
+    if c.get("vseq"):
+        # observed as call number k of the V stage: make the calls that came before it (an answer may depend on them), as the stage did
+        seed, k = c["vseq"]
+        for (ps, pr, pa, pc, _tw, pdps) in v_inputs(seed, k):
+            out0 = call_lm(ec, mp, pdps, ps, pr, pa, pc)
+            lt_feedback(ec, mp, pdps, ps, pr, pa, pc, out0)
+            if pc == S.CLEAR:
+                mp.mp.dps = pdps
+                S.call(_em.moveTimeLM, pr, ps, pa)
     if c.get("fn") == "moveTimeLM":
         mp.mp.dps = dps
         t = S.call(_em.moveTimeLM, r, steps, a)
@@ -264,4 +280,16 @@ def replay(rec):
     ev = S.ev_lm(steps, r, a, acc, out, fb, tw, dps)
     ctx = vlib.Ctx("C03", "quick", 0, LEVEL, fresh=False)
     v = S.judge(ctx, "replay", [ev])[0]
+    if v in ("ok", "skip") and c.get("mode") == "G" and not c.get("prelude"):
+        # holds on its own: in the G stage this call came after thousands of others - run that stage again and look for the same input
+        import json
+        sub = vlib.Ctx("C03", "quick", 0, LEVEL, fresh=False)
+        sub.replaydir = __import__("os").path.join(sub.workdir, "replay_stage")
+        g_lm(sub, ec, _em, mp, "Stepper_full_lm_quick.cfg")
+        again = []
+        for path in [p for p in sub.violations if p]:
+            k = json.load(open(path))
+            if k["clause"] == rec.get("clause"):         # the stage visits its vectors in TLC's dump order, which may differ: the same clause, not the same input
+                again.append(k["case"])
+        return not again, {"verdict": v, "returned": repr(out), "whole_G_stage_again": {"violations": len([p for p in sub.violations if p]), "same_clause": again[:1]}}
     return v in ("ok", "skip"), {"verdict": v, "returned": repr(out), "first_tick_witness": tw}
